@@ -250,6 +250,9 @@ class OpSet:
         outs = []
         for row in r.get("rows") or []:
             vs = [values.from_jval(j) for j in row]
+            if len(vs) != len(m["cols"]):
+                outs.append(0)          # a callback invoked with a nil / short row: not a row of the table
+                continue
             if not m["wr"]:
                 if m["cols"][0].lower() in ("rowid", "_rowid_", "oid") and m["cols"][0].lower() not in [c.lower() for c in m["cols"][1:]]:
                     rid = vs[0][1] if vs[0][0] == "i" else None
